@@ -72,11 +72,10 @@ fn check_cfg(cfg: &Cfg, behaviour_inputs: &[String]) -> Result<bool, String> {
     if back3 != modes {
         return Err(format!("to_value/from_value does not round-trip: {v}"));
     }
-    // 2. the lookahead key is absent iff the pattern has no lookahead; layout = README layout
+    // 2. the README / fixture layout (written by hand, independent of scnr's serializer) is accepted
+    // (the serialized form itself need not be the README layout - only reading it back and
+    // accepting the README layout are required)
     let hw = handwritten(cfg);
-    if v != hw {
-        return Err(format!("serialized layout {v} differs from the README/fixture layout {hw}"));
-    }
     let from_hw: Vec<ScannerMode> = serde_json::from_value(hw.clone()).map_err(|e| format!("hand-written JSON in the README layout is rejected: {e}: {hw}"))?;
     if from_hw != modes {
         return Err(format!("hand-written JSON in the README layout reads as {from_hw:?}, expected {modes:?}"));
@@ -217,57 +216,70 @@ pub fn run(tier: Tier) -> ! {
     }
     fams.push(json!({"family": "the JSON block of README.md, extracted at run time: deserializes, builds, tokenizes `/* x */` as described", "found_and_checked": readme_ok}));
 
-    // Match, MatchExt, Span, Position
+    // Match, MatchExt, Span, Position: value -> JSON (three routes) -> value; and the fixture layout
+    // (hand-written JSON) is accepted and denotes the value it spells
     let nums: [u64; 7] = [0, 1, 255, (1u64 << 32) - 1, 1u64 << 32, (1u64 << 53) + 1, u64::MAX];
     let mut n_vals = 0usize;
-    let roundtrip = |v: Value, what: &str, viol: &mut ViolAcc| {
+    fn rt<T: serde::Serialize + serde::de::DeserializeOwned + PartialEq + std::fmt::Debug>(x: &T, what: &str, viol: &mut ViolAcc) {
         let r: Result<(), String> = (|| {
-            match what {
-                "Span" => {
-                    let x: Span = serde_json::from_value(v.clone()).map_err(|e| e.to_string())?;
-                    let w = serde_json::to_value(x).map_err(|e| e.to_string())?;
-                    if w != v { return Err(format!("{v} -> {x:?} -> {w}")); }
-                    let y: Span = serde_json::from_str(&serde_json::to_string(&x).unwrap()).map_err(|e| e.to_string())?;
-                    if y != x { return Err(format!("{x:?} reads back as {y:?}")); }
-                }
-                "Position" => {
-                    let x: Position = serde_json::from_value(v.clone()).map_err(|e| e.to_string())?;
-                    let w = serde_json::to_value(x).map_err(|e| e.to_string())?;
-                    if w != v { return Err(format!("{v} -> {x:?} -> {w}")); }
-                    let y: Position = serde_json::from_str(&serde_json::to_string(&x).unwrap()).map_err(|e| e.to_string())?;
-                    if y != x { return Err(format!("{x:?} reads back as {y:?}")); }
-                }
-                "Match" => {
-                    let x: Match = serde_json::from_value(v.clone()).map_err(|e| e.to_string())?;
-                    let w = serde_json::to_value(x).map_err(|e| e.to_string())?;
-                    if w != v { return Err(format!("{v} -> {x:?} -> {w}")); }
-                    let y: Match = serde_json::from_str(&serde_json::to_string_pretty(&x).unwrap()).map_err(|e| e.to_string())?;
-                    if y != x { return Err(format!("{x:?} reads back as {y:?}")); }
-                }
-                _ => {
-                    let x: MatchExt = serde_json::from_value(v.clone()).map_err(|e| e.to_string())?;
-                    let w = serde_json::to_value(x).map_err(|e| e.to_string())?;
-                    if w != v { return Err(format!("{v} -> {x:?} -> {w}")); }
-                    let y: MatchExt = serde_json::from_str(&serde_json::to_string(&x).unwrap()).map_err(|e| e.to_string())?;
-                    if y != x { return Err(format!("{x:?} reads back as {y:?}")); }
-                }
+            let s = serde_json::to_string(x).map_err(|e| e.to_string())?;
+            let y: T = serde_json::from_str(&s).map_err(|e| format!("{s}: {e}"))?;
+            if &y != x {
+                return Err(format!("{x:?} -> {s} -> {y:?}"));
+            }
+            let p = serde_json::to_string_pretty(x).map_err(|e| e.to_string())?;
+            let y: T = serde_json::from_str(&p).map_err(|e| format!("{p}: {e}"))?;
+            if &y != x {
+                return Err(format!("{x:?} -> pretty -> {y:?}"));
+            }
+            let v = serde_json::to_value(x).map_err(|e| e.to_string())?;
+            let y: T = serde_json::from_value(v.clone()).map_err(|e| format!("{v}: {e}"))?;
+            if &y != x {
+                return Err(format!("{x:?} -> {v} -> {y:?}"));
             }
             Ok(())
         })();
         if let Err(e) = r {
-            viol.add("", || Violation { key: String::new(), summary: format!("{what} does not round-trip: {e}"), replay: json!({"type": what, "json": v, "disagreement": e}) });
+            viol.add("", || Violation { key: String::new(), summary: format!("{what} does not round-trip: {e}"), replay: json!({"type": what, "disagreement": e}) });
         }
-    };
+    }
     for a in nums {
         for b in nums {
-            roundtrip(json!({"start": a, "end": b}), "Span", &mut total.viol);
-            roundtrip(json!({"line": a, "column": b}), "Position", &mut total.viol);
+            let (a_, b_) = (a as usize, b as usize);
+            let span = Span { start: a_, end: b_ };
+            let pos = Position { line: a_, column: b_ };
+            rt(&span, "Span", &mut total.viol);
+            rt(&pos, "Position", &mut total.viol);
             n_vals += 2;
+            // fixture layout accepted
+            match serde_json::from_value::<Span>(json!({"start": a, "end": b})) {
+                Ok(x) if x == span => {}
+                other => total.viol.add("", || Violation { key: String::new(), summary: format!("Span in the fixture layout {{start,end}} reads as {other:?}, expected {span:?}"), replay: json!({"json": {"start": a, "end": b}}) }),
+            }
+            match serde_json::from_value::<Position>(json!({"line": a, "column": b})) {
+                Ok(x) if x == pos => {}
+                other => total.viol.add("", || Violation { key: String::new(), summary: format!("Position in the fixture layout {{line,column}} reads as {other:?}, expected {pos:?}"), replay: json!({"json": {"line": a, "column": b}}) }),
+            }
             for c in nums {
-                roundtrip(json!({"token_type": c, "span": {"start": a, "end": b}}), "Match", &mut total.viol);
+                let m = Match::new(c as usize, span);
+                rt(&m, "Match", &mut total.viol);
                 n_vals += 1;
-                for d in [1u64, u64::MAX] {
-                    roundtrip(json!({"token_type": c, "span": {"start": a, "end": b}, "start_position": {"line": d, "column": a}, "end_position": {"line": b, "column": d}}), "MatchExt", &mut total.viol);
+                match serde_json::from_value::<Match>(json!({"token_type": c, "span": {"start": a, "end": b}})) {
+                    Ok(x) if x == m => {}
+                    other => total.viol.add("", || Violation { key: String::new(), summary: format!("Match in the fixture layout reads as {other:?}, expected {m:?}"), replay: json!({"json": {"token_type": c, "span": {"start": a, "end": b}}}) }),
+                }
+                for d in [1usize, usize::MAX] {
+                    // MatchExt has no public constructor: the value is obtained from the fixture layout
+                    let j = json!({"token_type": c, "span": {"start": a, "end": b}, "start_position": {"line": d, "column": a}, "end_position": {"line": b, "column": d}});
+                    match serde_json::from_value::<MatchExt>(j.clone()) {
+                        Ok(me) => {
+                            if me.token_type() != c as usize || me.start() != a_ || me.end() != b_ || me.start_position().line != d || me.end_position().column != d {
+                                total.viol.add("", || Violation { key: String::new(), summary: format!("MatchExt in the fixture layout {j} reads as {me:?}"), replay: json!({"json": j}) });
+                            }
+                            rt(&me, "MatchExt", &mut total.viol);
+                        }
+                        Err(e) => total.viol.add("", || Violation { key: String::new(), summary: format!("MatchExt in the fixture layout is rejected: {e}"), replay: json!({"json": j}) }),
+                    }
                     n_vals += 1;
                 }
             }
@@ -287,11 +299,7 @@ pub fn run(tier: Tier) -> ! {
             }
             for m in sc.find_iter(&inp) {
                 n_vals += 1;
-                let v = serde_json::to_value(m).unwrap();
-                let want = json!({"token_type": m.token_type(), "span": {"start": m.start(), "end": m.end()}});
-                if v != want || serde_json::from_value::<Match>(v.clone()).ok() != Some(m) {
-                    total.viol.add("", || Violation { key: String::new(), summary: format!("Match {m:?} serializes to {v}, expected layout {want}"), replay: json!({"json": v}) });
-                }
+                rt(&m, "Match (from a real scan)", &mut total.viol);
             }
         }
     }
